@@ -1,4 +1,106 @@
-use xsgv::runner::{main_replay, main_run, Tier};
+use std::time::{Duration, Instant};
+use xsgv::crashguard;
+use xsgv::runner::{hex, main_replay, main_run, verif_root, write_evidence, write_replay, Failure, Outcome, Property, Stats, Tapes, Tier};
+
+fn seed() -> u64 {
+    std::env::var("VERIF_SEED").ok().and_then(|s| s.trim().parse::<i64>().ok()).map(|v| v as u64).unwrap_or(0)
+}
+
+fn wait_with_timeout(child: &mut std::process::Child, limit: Option<Duration>) -> Option<std::process::ExitStatus> {
+    let start = Instant::now();
+    loop {
+        match child.try_wait() {
+            Ok(Some(s)) => return Some(s),
+            Ok(None) => {}
+            Err(_) => return None,
+        }
+        if let Some(l) = limit {
+            if start.elapsed() > l {
+                let _ = child.kill();
+                let _ = child.wait();
+                return None;
+            }
+        }
+        std::thread::sleep(Duration::from_millis(50));
+    }
+}
+
+/// run the worker in a child process so that a crash or hang of the code under test becomes a reported violation
+fn supervise(prop: &dyn Property, args: &[String]) -> i32 {
+    let exe = std::env::current_exe().expect("current_exe");
+    let dir = verif_root().join("work").join(format!("{}-{}", prop.id(), std::process::id()));
+    let _ = std::fs::create_dir_all(&dir);
+    let is_replay = args.get(2).map(|s| s == "--replay").unwrap_or(false);
+    let tier = if args.get(2).map(|s| s == "thorough").unwrap_or(false) { Tier::Thorough } else { Tier::Quick };
+    let mut child = std::process::Command::new(&exe).args(&args[1..]).env("XSGV_WORKER", "1").env("XSGV_CRASHDIR", &dir).spawn().expect("spawn worker");
+    let status = wait_with_timeout(&mut child, if is_replay { Some(Duration::from_secs(25)) } else { None });
+    let code = match status {
+        None => {
+            // only replays have a limit: the saved case does not terminate
+            println!("VIOLATION property={} replay={}", prop.id(), args.get(3).cloned().unwrap_or_default());
+            println!("  the saved case did not return within 25 s (fails to terminate)");
+            let _ = std::fs::remove_dir_all(&dir);
+            return 1;
+        }
+        Some(s) => s,
+    };
+    let find = |prefix: &str| -> Option<std::path::PathBuf> {
+        let mut v: Vec<_> = std::fs::read_dir(&dir).ok()?.filter_map(|e| e.ok()).map(|e| e.path()).filter(|p| p.file_name().map(|n| n.to_string_lossy().starts_with(prefix)).unwrap_or(false)).collect();
+        v.sort();
+        v.into_iter().next()
+    };
+    let abnormal = code.code().is_none() || code.code() == Some(crashguard::EXIT_CRASH) || code.code() == Some(crashguard::EXIT_HANG);
+    if !abnormal {
+        let _ = std::fs::remove_dir_all(&dir);
+        return code.code().unwrap_or(2);
+    }
+    if is_replay {
+        println!("VIOLATION property={} replay={}", prop.id(), args.get(3).cloned().unwrap_or_default());
+        println!("  the saved case killed the process ({:?})", code);
+        let _ = std::fs::remove_dir_all(&dir);
+        return 1;
+    }
+    let hang = code.code() == Some(crashguard::EXIT_HANG);
+    let dump = find(if hang { "hang-" } else { "crash-" }).and_then(|p| crashguard::read_dump(&p));
+    let _ = &find;
+    let _ = std::fs::remove_dir_all(&dir);
+    let (evals, nontrivial, tapes) = match dump {
+        Some((e, n, a, b, c)) => (e, n, Some(Tapes { a, b, c })),
+        None => (0, 0, None),
+    };
+    let tapes = match tapes {
+        Some(t) => t,
+        None => {
+            eprintln!("INCONCLUSIVE property={} worker ended abnormally ({:?}) without a case dump", prop.id(), code);
+            return 2;
+        }
+    };
+    let msg = if hang {
+        "a case did not return within 20 s (fails to terminate)".to_string()
+    } else {
+        format!("the process was killed while running a case ({:?}): stack overflow or abort", code)
+    };
+    let f = Failure::new(msg.clone());
+    let payload = serde_json::json!({"kind": "tapes", "tapes": {"a": hex(&tapes.a), "b": hex(&tapes.b), "c": hex(&tapes.c)}, "decoded": prop.describe(&tapes)});
+    let path = write_replay(prop.id(), &f, &payload);
+    if hang {
+        // confirm in a fresh process before calling it a violation
+        let mut c2 = std::process::Command::new(&exe).arg(prop.id()).arg("--replay").arg(&path).env("XSGV_WORKER", "1").env("XSGV_QUIET", "1").stdout(std::process::Stdio::null()).spawn().expect("spawn replay");
+        if wait_with_timeout(&mut c2, Some(Duration::from_secs(20))).is_some() {
+            eprintln!("INCONCLUSIVE property={} a case exceeded the watchdog once but returned in time on replay ({})", prop.id(), path.display());
+            return 2;
+        }
+    }
+    let mut st = Stats::default();
+    st.evaluations = evals.max(1);
+    st.nontrivial_enumerated = nontrivial;
+    st.samples.push(prop.describe(&tapes));
+    let out = Outcome { stats: st, failure: None, wall_s: 0.0 };
+    write_evidence(prop, tier, seed(), &out, 1);
+    println!("VIOLATION property={} replay={}", prop.id(), path.display());
+    println!("  {}", msg);
+    1
+}
 
 fn main() {
     let args: Vec<String> = std::env::args().collect();
@@ -8,7 +110,7 @@ fn main() {
     }
     if args[1] == "__render_c05" && args.len() == 5 {
         use std::io::Write;
-        let t = xsgv::runner::Tapes { a: xsgv::runner::unhex(&args[2]), b: xsgv::runner::unhex(&args[3]), c: xsgv::runner::unhex(&args[4]) };
+        let t = Tapes { a: xsgv::runner::unhex(&args[2]), b: xsgv::runner::unhex(&args[3]), c: xsgv::runner::unhex(&args[4]) };
         let out = xsgv::props::c05::render_for_subprocess(&t);
         std::io::stdout().write_all(out.as_bytes()).unwrap();
         return;
@@ -21,7 +123,15 @@ fn main() {
             std::process::exit(2);
         }
     };
-    let seed: u64 = std::env::var("VERIF_SEED").ok().and_then(|s| s.trim().parse::<i64>().ok()).map(|v| v as u64).unwrap_or(0);
+    let worker = std::env::var("XSGV_WORKER").is_ok();
+    if id == "C07" {
+        if !worker {
+            std::process::exit(supervise(prop.as_ref(), &args));
+        }
+        if let Ok(d) = std::env::var("XSGV_CRASHDIR") {
+            crashguard::install(std::path::Path::new(&d), 20);
+        }
+    }
     let code = if args[2] == "--replay" {
         match args.get(3) {
             Some(p) => main_replay(prop.as_ref(), p),
@@ -36,7 +146,7 @@ fn main() {
                 std::process::exit(2);
             }
         };
-        main_run(prop.as_ref(), tier, seed)
+        main_run(prop.as_ref(), tier, seed())
     };
     std::process::exit(code);
 }
